@@ -1,4 +1,4 @@
-import RagcModel.Lemmas.Queue
+import RagcModel.Lemmas.QueueRefine
 /-!
 C06 — bounded priority queue: exactly-once, priority order, capacity bound, close.
 
@@ -8,7 +8,8 @@ quantify over **every** event sequence that the model accepts from the initial s
 threads: `run cap (init n) evs = some s`. That is every interleaving of any number of threads
 running arbitrary programs over push / try_push / pull / try_pull / close, with every choice of
 `notify_one` and with spurious wake-ups. `s.hist` is the linearisation history (newest first).
-Helper lemmas and the invariants are in `Lemmas/Queue.lean`.
+Helper lemmas and the invariants are in `Lemmas/Queue.lean`; the completed-call queue `AbsQ`, the
+projection `trace` and the measure `mu` of the last section are in `Lemmas/QueueRefine.lean`.
 -/
 namespace Ragc.Props.C06
 open Ragc.Queue Ragc.Queue.TStatus
@@ -387,5 +388,209 @@ example : run 4 (init 2) Demo.evs4 = some Demo.final4 ∧ Demo.final4.items = [D
 example : ∃ w s', step 4 (State.mk [] 0 false [.pushing Demo.Big, .waitNE] []) (.pushAdmit 0 w) = some s' ∧
     s'.items = [Demo.Big] :=
   (oversize_admitted_when_empty 4 _ 0 Demo.Big rfl rfl rfl).2
+
+/-! ## the completed-call queue (the queue of `Model/Pipeline.lean`) is refined by this model
+
+`AbsQ` is the queue at the granularity of completed calls: `push x` enabled iff
+`open ∧ (cur + size ≤ cap ∨ empty)`, `pull x` iff `x` is queued and maximal, `exit` (pull returning
+`None`) iff `closed ∧ empty`, `close` always; `cur` is recomputed from the items. `trace` projects an
+event sequence: `pushAdmit`/`tryPushAdmit` ↦ push, `pullTake`/`tryPullTake` ↦ pull, `pullEos` ↦
+exit, `close` ↦ close, every other event (enter, wait, wake, spurious wake, refuse, would-block,
+try-pull-empty) ↦ nothing. -/
+
+/-- Refinement (safety). For every run of the model — any number of threads, any `notify_one`
+choices, spurious wake-ups — the projected sequence of completed calls is a run of the
+completed-call queue from the empty open queue to the abstraction `(items, closed)` of the state
+reached; the byte counter is the recomputed one; and the projection is exactly the linearisation
+history read oldest first. -/
+theorem queue_refines_abstract {cap n : Nat} {evs : List Event} {s : State}
+    (h : run cap (init n) evs = some s) :
+    arun cap AbsQ.init (trace cap (init n) evs) = some s.abs ∧ s.cur = s.abs.cur ∧
+      histOps s.hist = trace cap (init n) evs := by
+  obtain ⟨h1, h2⟩ := refines_run evs (s0 := init n) rfl h
+  exact ⟨h1, h2, by simpa [init, histOps] using hist_run evs h⟩
+
+example : trace 10 (init 3) Demo.evs =
+    [.push 0 Demo.a, .push 0 Demo.b, .pull 1 Demo.b, .push 0 Demo.c, .pull 1 Demo.c, .pull 1 Demo.a,
+     .close 2, .exit 1] := by decide
+example : arun 10 AbsQ.init (trace 10 (init 3) Demo.evs) = some ⟨[], true⟩ :=
+  (queue_refines_abstract Demo.run_evs).1
+
+/-- What "is a run of the completed-call queue" says, call by call: the `k`-th projected call was
+enabled in the abstract state `a1` reached by the calls before it. A push happened on an open queue
+into which the item fits or which is empty (the guard `Pipeline.pushGuard true`), a pull returned a
+queued item of maximal key, an exit happened on a closed empty queue (`AOp.spec`: for `push _ x`
+`a1.closed = false ∧ (sizeSum a1.items + x.size ≤ cap ∨ a1.items = []) ∧ a2 = ⟨x :: a1.items, a1.closed⟩`,
+for `pull _ x` `x ∈ a1.items ∧ (∀ y ∈ a1.items, y.prio ≤ x.prio) ∧ a2 = ⟨a1.items.erase x, a1.closed⟩`,
+for `exit _` `a1.closed = true ∧ a1.items = [] ∧ a2 = a1`, for `close _` `a2 = ⟨a1.items, true⟩`). -/
+theorem projected_calls_enabled {cap n : Nat} {evs : List Event} {s : State}
+    (h : run cap (init n) evs = some s) {pre post : List AOp} {o : AOp}
+    (ht : trace cap (init n) evs = pre ++ o :: post) :
+    ∃ a1 a2, arun cap AbsQ.init pre = some a1 ∧ arun cap a2 post = some s.abs ∧ o.spec cap a1 a2 := by
+  have hr := (queue_refines_abstract h).1
+  rw [ht] at hr
+  obtain ⟨a1, a2, h1, h2, h3⟩ := arun_split hr
+  exact ⟨a1, a2, h1, h3, astep_spec h2⟩
+
+example : ∃ a1 a2, arun 10 AbsQ.init [.push 0 Demo.a, .push 0 Demo.b] = some a1 ∧
+    arun 10 a2 [.push 0 Demo.c, .pull 1 Demo.c, .pull 1 Demo.a, .close 2, .exit 1] = some Demo.final.abs ∧
+    (Demo.b ∈ a1.items ∧ (∀ y ∈ a1.items, y.prio ≤ Demo.b.prio) ∧ a2 = ⟨a1.items.erase Demo.b, a1.closed⟩) :=
+  projected_calls_enabled Demo.run_evs (o := .pull 1 Demo.b) (by decide)
+
+/-! ## no stuck call: the condvar protocol never withholds an enabled completed call
+
+The pipeline's usage: only thread `p` calls the blocking `push` (`OnlyPusher p`); any number of
+threads call `pull`. (`try_push`/`try_pull`/`close` by any thread are allowed as well — the theorems
+do not need their absence.) An event is *internal* if it is neither a spurious wake-up nor the start
+of a new call: `pushWait`, `pushWake`, `pushRefuse`, `pushAdmit`, `pullWait`, `pullWake`, `pullEos`,
+`pullTake` — the steps the code itself takes inside a call that is in progress. -/
+
+/-- A call in progress is never blocked without a cause. In every reachable state, for every thread
+`t` inside a call:
+
+(a) inside `pull`: `t` has an enabled internal step of its own (it is running or has been
+notified), or it sleeps in `not_empty.wait`, the queue is open, and every queued item is covered by a
+distinct consumer that is awake inside `pull` (`#items ≤ #notified + #running`); hence either the
+queue is empty — both completed outcomes of `pull` are disabled — or another consumer `u`, notified
+or running, has an enabled internal step (a wake-up is in flight);
+
+(b) inside `push`: `t` has an enabled internal step of its own, or it is the producer `p` asleep in
+`not_full.wait` and the completed `push` of its item is disabled (does not fit, queue non-empty,
+open). -/
+theorem blocked_call_has_cause {cap n p : Nat} {evs : List Event} {s : State}
+    (h : run cap (init n) evs = some s) (hp : ∀ e ∈ evs, OnlyPusher p e)
+    {t : Nat} {st : TStatus} (ht : s.thr[t]? = some st) :
+    (st.inPull = true →
+      (∃ e s', e.tid = t ∧ e.isInternal = true ∧ step cap s e = some s') ∨
+      (st = .waitNE ∧ s.closed = false ∧ s.items.length ≤ s.cnt isNotifNE + s.cnt isPulling ∧
+        (s.items = [] ∨ ∃ u stu e s', u ≠ t ∧ s.thr[u]? = some stu ∧ (stu = .notifNE ∨ stu = .pulling) ∧
+          e.tid = u ∧ e.isInternal = true ∧ step cap s e = some s'))) ∧
+    (st.inPush = true →
+      (∃ e s', e.tid = t ∧ e.isInternal = true ∧ step cap s e = some s') ∨
+      (∃ it, st = .waitNF it ∧ t = p ∧ ¬ s.abs.canPush cap it ∧
+        s.cur + it.size > cap ∧ s.items ≠ [] ∧ s.closed = false)) := by
+  constructor
+  · intro hin
+    cases st <;> simp [inPull] at hin
+    · exact .inl (own_step_pulling cap ht)
+    · exact .inr ⟨rfl, sleeping_consumer cap (InvB_run h) ht⟩
+    · exact .inl (own_step_notifNE cap ht)
+  · intro hin
+    cases st <;> simp [inPush] at hin
+    · exact .inl (own_step_pushing cap ht)
+    · next it =>
+      obtain ⟨h1, h2, h3, h4⟩ := sleeping_producer (InvD_run hp h) ht
+      refine .inr ⟨it, rfl, h1, ?_, h2, h3, h4⟩
+      rintro ⟨_, hfit⟩
+      simp only [AbsQ.cur, State.abs, ← size_accounting h] at hfit
+      rcases hfit with hfit | hfit
+      · omega
+      · exact h3 hfit
+    · exact .inl (own_step_notifNF cap ht)
+
+/-- the sleeping producer of `Demo.mid` (item `c`, 1 byte, on a full queue): alternative two of (b) -/
+example : (∃ e s', e.tid = 0 ∧ e.isInternal = true ∧ step 10 Demo.mid e = some s') ∨
+    (∃ it, TStatus.waitNF Demo.c = .waitNF it ∧ (0 : Nat) = 0 ∧ ¬ Demo.mid.abs.canPush 10 it ∧
+      Demo.mid.cur + it.size > 10 ∧ Demo.mid.items ≠ [] ∧ Demo.mid.closed = false) :=
+  (blocked_call_has_cause (p := 0) Demo.run_mid (by decide) (t := 0) rfl).2 rfl
+example : ¬ Demo.mid.abs.canPush 10 Demo.c := by decide
+/-- the sleeping consumer of `Demo.asleep` on the empty open queue: alternative two of (a) -/
+example : (∃ e s', e.tid = 1 ∧ e.isInternal = true ∧ step 10 Demo.asleep e = some s') ∨
+    (TStatus.waitNE = .waitNE ∧ Demo.asleep.closed = false ∧
+      Demo.asleep.items.length ≤ Demo.asleep.cnt isNotifNE + Demo.asleep.cnt isPulling ∧
+      (Demo.asleep.items = [] ∨ ∃ u stu e s', u ≠ 1 ∧ Demo.asleep.thr[u]? = some stu ∧
+        (stu = .notifNE ∨ stu = .pulling) ∧ e.tid = u ∧ e.isInternal = true ∧
+        step 10 Demo.asleep e = some s')) :=
+  (blocked_call_has_cause (p := 0) Demo.run_asleep (by decide) (t := 1) rfl).1 rfl
+example : Demo.asleep.items = [] ∧ ¬ Demo.asleep.abs.canExit := by decide
+
+/-- Consequently: whenever the completed-call queue has an enabled operation for a thread that is
+inside the corresponding call, the model has an enabled event that is not a spurious wake-up (and not
+a new call). For `push` it is an event of the caller itself; for `pull` (an item is queued, or the
+queue is closed and empty) it is an event of some thread `u` that is awake inside `pull` — the caller
+or, if the caller sleeps, a consumer to which the wake-up went. -/
+theorem enabled_abstract_step_implies_enabled_concrete_step {cap n p : Nat} {evs : List Event}
+    {s : State} (h : run cap (init n) evs = some s) (hp : ∀ e ∈ evs, OnlyPusher p e)
+    {t : Nat} {st : TStatus} (ht : s.thr[t]? = some st) :
+    (∀ it, st.item? = some it → s.abs.canPush cap it →
+      ∃ e s', e.tid = t ∧ e.isInternal = true ∧ step cap s e = some s') ∧
+    (st.inPull = true → ((∃ x, s.abs.canPull x) ∨ s.abs.canExit) →
+      ∃ u stu e s', s.thr[u]? = some stu ∧ (stu = .pulling ∨ stu = .notifNE) ∧
+        e.tid = u ∧ e.isInternal = true ∧ step cap s e = some s') := by
+  have hb := blocked_call_has_cause h hp ht
+  constructor
+  · intro it hit hcan
+    have hin : st.inPush = true := by cases st <;> simp [item?] at hit <;> rfl
+    rcases hb.2 hin with hown | ⟨it', hst, _, hno, _⟩
+    · exact hown
+    · subst hst
+      simp only [item?, Option.some.injEq] at hit
+      subst hit
+      exact absurd hcan hno
+  · intro hin hen
+    rcases hb.1 hin with ⟨e, s', he, hint, hs⟩ | ⟨hst, hopen, _, hemp | ⟨u, stu, e, s', _, hu, hstu, he, hint, hs⟩⟩
+    · cases st <;> simp [inPull] at hin
+      · exact ⟨t, _, e, s', ht, .inl rfl, he, hint, hs⟩
+      · exfalso
+        obtain ⟨st', hst', hpre⟩ := step_pre hs
+        rw [he, ht] at hst'
+        cases hst'
+        cases e <;> simp [Event.pre, isIdle, isPushing, isNotifNF, isWaitNF, isPulling, isNotifNE,
+          isWaitNE, Event.isInternal, Event.isSpur, Event.isStart] at hpre hint
+      · exact ⟨t, _, e, s', ht, .inr rfl, he, hint, hs⟩
+    · exfalso
+      rcases hen with ⟨x, hx, _⟩ | ⟨hc, _⟩
+      · simp only [State.abs, hemp] at hx; cases hx
+      · simp only [State.abs] at hc; rw [hopen] at hc; cases hc
+    · exact ⟨u, stu, e, s', hu, hstu.symm, he, hint, hs⟩
+
+/-- `Demo.mid`: `b` is queued and maximal, consumer 1 has been notified and can resume -/
+example : ∃ u stu e s', Demo.mid.thr[u]? = some stu ∧ (stu = .pulling ∨ stu = .notifNE) ∧
+    e.tid = u ∧ e.isInternal = true ∧ step 10 Demo.mid e = some s' :=
+  (enabled_abstract_step_implies_enabled_concrete_step (p := 0) Demo.run_mid (by decide) (t := 1) rfl).2
+    rfl (.inl ⟨Demo.b, by decide⟩)
+
+/-- Internal steps terminate, and where they stop nothing is withheld. From a reachable state, every
+sequence `fs` of internal events (no spurious wake-up, no new call) has at most `mu s ≤ 4·n` events
+(`mu` weighs a thread outside the queue 0, asleep 2, evaluating its loop condition 3, notified 4);
+and if no internal event is enabled after it, every thread is outside the queue (its call
+completed), or a consumer asleep on an open empty queue, or the producer asleep with an item whose
+completed `push` is disabled. -/
+theorem internal_steps_terminate {cap n p : Nat} {evs : List Event} {s : State}
+    (h : run cap (init n) evs = some s) (hp : ∀ e ∈ evs, OnlyPusher p e)
+    {fs : List Event} {s' : State} (hf : run cap s fs = some s')
+    (hi : ∀ e ∈ fs, e.isInternal = true) :
+    fs.length + mu s' ≤ mu s ∧ mu s ≤ 4 * n ∧
+    (Quiescent cap s' → ∀ t st, s'.thr[t]? = some st →
+      st = .idle ∨ (st = .waitNE ∧ s'.items = [] ∧ s'.closed = false) ∨
+      (∃ it, st = .waitNF it ∧ t = p ∧ s'.cur + it.size > cap ∧ s'.items ≠ [] ∧ s'.closed = false)) := by
+  refine ⟨internal_run_bounded fs hf hi, ?_, fun hq t st ht => ?_⟩
+  · have := mu_le s
+    rw [run_thr_length h] at this
+    simpa [init] using this
+  · have hrun : run cap (init n) (evs ++ fs) = some s' := by rw [run_append, h]; exact hf
+    have hp' : ∀ e ∈ evs ++ fs, OnlyPusher p e := by
+      intro e he
+      rcases List.mem_append.mp he with he | he
+      · exact hp e he
+      · exact internal_onlyPusher p (hi e he)
+    exact quiescent_blocked (InvB_run hrun) (InvD_run hp' hrun) hq ht
+
+/-- from `Demo.mid` (producer asleep with `c`, consumer notified): wake, take `b` notifying the
+producer, producer wakes and its item is accepted — four internal steps, `mu` falls from 6 to 0 -/
+example : run 10 Demo.mid [.pullWake 1, .pullTake 1 Demo.b (some 0), .pushWake 0, .pushAdmit 0 none]
+    = some { items := [Demo.c, Demo.a], cur := 5, closed := false, thr := [.idle, .idle, .idle],
+             hist := [.accept 0 Demo.c, .take 1 Demo.b, .accept 0 Demo.b, .accept 0 Demo.a] } := by decide
+example : mu Demo.mid = 6 := by decide
+example : (4 : Nat) + 0 ≤ mu Demo.mid ∧ mu Demo.mid ≤ 4 * 3 :=
+  let r := internal_steps_terminate (p := 0) Demo.run_mid (by decide)
+    (fs := [.pullWake 1, .pullTake 1 Demo.b (some 0), .pushWake 0, .pushAdmit 0 none])
+    (s' := { items := [Demo.c, Demo.a], cur := 5, closed := false, thr := [.idle, .idle, .idle],
+             hist := [.accept 0 Demo.c, .take 1 Demo.b, .accept 0 Demo.b, .accept 0 Demo.a] })
+    (by decide) (by decide)
+  ⟨by have := r.1; simpa [mu, TStatus.wt] using this, r.2.1⟩
+/-- `Demo.asleep` is quiescent with a consumer asleep on the empty open queue -/
+example : Demo.asleep.thr[1]? = some .waitNE ∧ Demo.asleep.items = [] ∧ Demo.asleep.closed = false := by
+  decide
 
 end Ragc.Props.C06
